@@ -87,9 +87,51 @@ def run_one(prop, case):
     return res
 
 
+class AnchorProbe(object):
+    """sys.monitoring PY_START probe: which functions of the repository package were entered.
+    Each code object reports once and is then DISABLEd, so the overhead is negligible."""
+
+    def __init__(self, root):
+        self.root = os.path.join(root, 'sfc_models') + os.sep
+        self.entered = set()
+        self.tool = None
+
+    def start(self):
+        mon = getattr(sys, 'monitoring', None)
+        if mon is None:
+            return
+        try:
+            self.tool = mon.PROFILER_ID
+            mon.use_tool_id(self.tool, 'vf-anchor-probe')
+        except Exception:
+            self.tool = None
+            return
+
+        def on_start(code, offset):
+            fn = code.co_filename
+            if fn.startswith(self.root):
+                self.entered.add(fn[len(self.root):] + ':' + code.co_qualname)
+            return mon.DISABLE
+        mon.register_callback(self.tool, mon.events.PY_START, on_start)
+        mon.set_events(self.tool, mon.events.PY_START)
+
+    def stop(self):
+        mon = getattr(sys, 'monitoring', None)
+        if mon is None or self.tool is None:
+            return
+        try:
+            mon.set_events(self.tool, 0)
+            mon.register_callback(self.tool, mon.events.PY_START, None)
+            mon.free_tool_id(self.tool)
+        except Exception:
+            pass
+
+
 def worker(args):
     from vf import repo
     repo.activate()
+    probe = AnchorProbe(repo.REPO)
+    probe.start()
     prop = load_prop(args.prop)
     n = prop.n_cases(args.tier)
     agg = new_agg()
@@ -105,6 +147,8 @@ def worker(args):
             continue
         res = run_one(prop, case)
         merge_case(agg, idx, case, res)
+    probe.stop()
+    agg['entered'] = sorted(probe.entered)
     agg['wall'] = time.time() - t0
     agg['keys'] = sorted(agg['keys'])
     with open(args.out, 'w') as f:
@@ -113,7 +157,7 @@ def worker(args):
 
 def new_agg():
     return {'cases': 0, 'evals': 0, 'keys': set(), 'verdicts': {}, 'shapes': {}, 'counters': {},
-            'samples': [], 'violations': [], 'inconclusive': [], 'worst': {}, 'notes': {}}
+            'samples': [], 'violations': [], 'inconclusive': [], 'worst': {}, 'notes': {}, 'entered': []}
 
 
 def merge_case(agg, idx, case, res):
@@ -153,6 +197,7 @@ def merge_aggs(aggs):
         for k, x in a['worst'].items():
             if k not in tot['worst'] or x > tot['worst'][k]:
                 tot['worst'][k] = x
+        tot['entered'] = sorted(set(tot['entered']) | set(a.get('entered', [])))
         tot['samples'].extend(a['samples'])
         tot['violations'].extend(a['violations'])
         tot['inconclusive'].extend(a['inconclusive'])
@@ -280,6 +325,12 @@ def conclude(prop, args, tot, shard_failures, wall, n_planned):
             reasons.append('monitor counter %s never incremented' % c)
     if len(tot['keys']) < 2:
         reasons.append('fewer than 2 distinct non-trivial cases')
+    entered_q = set(e.split(':', 1)[1] for e in tot.get('entered', []))
+    anchors = list(getattr(prop, 'anchors', ()))
+    missing_anchors = [a for a in anchors if a not in entered_q]
+    if missing_anchors and tot.get('entered'):
+        reasons.append('anchored functions never entered: %s' % ', '.join(missing_anchors))
+    n_other_inc = tot['verdicts'].get('inconclusive', 0)
     n_mon_err = sum(1 for i in tot['inconclusive'] if i.get('reason') in ('monitor_error',
                                                                             'generator_error'))
     if n_mon_err:
@@ -312,6 +363,10 @@ def conclude(prop, args, tot, shard_failures, wall, n_planned):
         'notes': tot['notes'],
         'known_findings_observed': {k: len(v) for k, v in old.items()},
         'new_violations': len(new),
+        'anchor_functions_expected': anchors,
+        'anchor_functions_reached': [a for a in anchors if a in entered_q],
+        'repo_functions_entered': len(tot.get('entered', [])),
+        'inconclusive_cases': tot['verdicts'].get('inconclusive', 0),
         'inconclusive_reasons': reasons,
         'sfc_models_origin': repo.origin(),
         'verdict': 'violated' if new else ('inconclusive' if reasons else 'held'),
